@@ -235,6 +235,14 @@ int main(int argc, char **argv) {
           CmpResult r; std::string extra; for (auto &nv : *no) { int s = TT.sym(nit->second, *nv.getAsInteger()); if (sy.count(s)) extra += TT.str(s) + " "; }
           if (!extra.empty()) { r.v = V_VIOLATION; r.how = "normal form depends on inputs it must not depend on"; r.got = "extra: " + extra; }
           report(r, da.name, c, cellSrc(da, c));
+        } else if (kind == "independent_syntactic") { // the cell's canonical term must not mention the given symbols at all
+          auto ia = regIx.find(jstr(o, "region")); if (ia == regIx.end()) { setupErrors.push_back("independent_syntactic: unknown region"); continue; }
+          RegionDecl &da = regs[ia->second]; int64_t c = jint(o, "cell"); std::string ns = jstr(o, "ns"); auto nit = TT.nsix.find(ns); const json::Array *no = o.getArray("cells");
+          if (nit == TT.nsix.end() || !no) { setupErrors.push_back("independent_syntactic: bad namespace"); continue; }
+          std::set<int> sy = cmp.symsOf(cmp.C.canon(cellTerm(da, c))); CmpResult r; std::string extra;
+          for (auto &nv : *no) { int s2 = TT.sym(nit->second, *nv.getAsInteger()); if (sy.count(s2)) extra += TT.str(s2) + " "; }
+          if (!extra.empty()) { r.v = V_VIOLATION; r.how = "term mentions inputs it must not depend on"; r.got = "extra: " + extra.substr(0, 200); }
+          report(r, da.name, c, cellSrc(da, c));
         } else if (kind == "premise_bilinear_once") { // op-tree premise of the forward rounding bound: as many multiplications as monomials
           auto ia = regIx.find(jstr(o, "region")); if (ia == regIx.end()) { setupErrors.push_back("premise: unknown region"); continue; }
           RegionDecl &da = regs[ia->second]; int64_t n = jint(o, "cells", da.cells); int64_t maxMul = jint(o, "max_mul", -1);
